@@ -1152,6 +1152,97 @@ def marker_nets(seed: int, tier: str):
         yield from emit(f"marker{seed}_{i}", norm(OSCILLATORS[o][0] + "; " + m1 + "; " + m2 + ("; " + t if t else "")))
 
 
+# ---- (9) variables that become inputs only after a stable motif of ANOTHER module is fixed (no input at the root) ---------------------------------
+PERC_INPUT_FIRST = norm("p, q; q, p; w, z; z, w; x, (p & !x) | (!p & x); y, (p & !y) | (!p & y)")  # the instance that revealed the shape
+PERC_INPUT_CONTROLLERS = {"switch": "p, q; q, p", "toggle": "p, !q; q, !p", "asym": "p, p | q; q, p & q", "source": "p, p", "latch": "p, p | (q & !p); q, q & p"}
+PERC_INPUT_FORMS = ["({p} & !{x}) | (!{p} & {x})", "{x} & {p}", "{x} | !{p}", "({p} & {x}) | (!{p} & !{x})", "{x} | {p}", "{x} & !{p}", "({x} & {p}) | (!{p} & {o})",
+                    "({x} | !{p}) & ({p} | !{o})"]
+PERC_INPUT_EXTRAS = {"none": "", "switch": "w, z; z, w", "osc": "w, !w", "down_switch": "w, z | {x}; z, w", "down_latch": "w, w & ({x} | p)", "toggle": "w, !z; z, !w"}
+
+
+def percolated_input_net(controller: str, forms, extra: str = "none") -> str:
+    xs = ["x", "y", "v"][: len(forms)]
+    rules = norm(PERC_INPUT_CONTROLLERS[controller])
+    for k, (x, f) in enumerate(zip(xs, forms)):
+        rules += "\n" + norm(f"{x}, " + f.format(x=x, p="p", o=xs[(k + 1) % len(xs)] if len(xs) > 1 else "p"))
+    e = PERC_INPUT_EXTRAS[extra].format(x=xs[0])
+    return norm(rules + ("\n" + norm(e) if e else ""))
+
+
+def percolated_input_nets(seed: int, tier: str):
+    """(name, bnet): a bistable (or source) controller p and 1-3 variables whose update function collapses to the identity under one value of p (so they
+    are inputs of the percolated network of a NON-root node), optionally next to an independent / downstream module.  First the instance that revealed
+    the shape, then controller x form x multiplicity x extra module in a seeded order, then seeded mixes of forms."""
+    seen = set()
+
+    def emit(name, b):
+        if b in seen or len(variables(b)) > 7:
+            return []
+        seen.add(b)
+        return [(name, b)]
+
+    yield from emit("perc_input_first", PERC_INPUT_FIRST)
+    combos = [(c, k, m, e) for c in PERC_INPUT_CONTROLLERS for k in range(len(PERC_INPUT_FORMS)) for m in (2, 1, 3) for e in PERC_INPUT_EXTRAS]
+    rng = random.Random(seed * 71 + 13)
+    rng.shuffle(combos)
+    for c, k, m, e in combos[: 120 if tier == "quick" else len(combos)]:
+        yield from emit(f"perc_input_{c}_{k}x{m}_{e}", percolated_input_net(c, [PERC_INPUT_FORMS[k]] * m, e))
+    for i in range(120 if tier == "quick" else 1200):
+        forms = [rng.choice(PERC_INPUT_FORMS) for _ in range(rng.choice([1, 2, 2, 3]))]
+        yield from emit(f"perc_input{seed}_{i}", percolated_input_net(rng.choice(list(PERC_INPUT_CONTROLLERS)), forms, rng.choice(list(PERC_INPUT_EXTRAS))))
+
+
+# ---- (10) a motif-avoidant module next to (or coupled with) bistable modules: the motif-avoidant attractor lies in the overlap of sibling nodes ------
+MAA_OVERLAP_FIRST = [
+    norm("A, !A & !B | C; B, !A & !B | C; C, A & B; P, P | (Q & A); Q, Q | (P & A)"),  # the instances that revealed the shape
+    norm("A, (!A & !B) | C; B, (!A & !B) | C; C, A & B; p1, p2; p2, p1; q1, q2; q2, q1"),
+]
+MAA_OVERLAP_SIDE = {
+    "switch": "p{i}, q{i}; q{i}, p{i}",
+    "set_latch": "p{i}, p{i} | t{i}; t{i}, !t{i} & !p{i}",
+    "self_or": "p{i}, p{i} | (q{i} & {o}); q{i}, q{i} | (p{i} & {o})",
+    "asym": "p{i}, p{i} | q{i}; q{i}, p{i} & q{i}",
+    "toggle": "p{i}, !q{i}; q{i}, !p{i}",
+    "self_and": "p{i}, p{i} & (q{i} | {o}); q{i}, q{i} & (p{i} | !{o})",
+    "single_or": "p{i}, p{i} | ({o} & !{o})",
+    "single": "p{i}, p{i}",
+}
+
+
+def maa_overlap_net(up: str, sides) -> str:
+    rules, outv = UP_MODULES[up]
+    other = variables(rules)[0]
+    text = rules
+    for i, side in enumerate(sides):
+        text += "\n" + norm(MAA_OVERLAP_SIDE[side].format(i=i + 1, o=other if i % 2 == 0 else outv))
+    return norm(text)
+
+
+def maa_overlap_nets(seed: int, tier: str):
+    """(name, bnet): a motif-avoidant module (MAA core / XNOR pair) and 1-3 bistable side modules that are independent of it or read one of its
+    variables; every stable motif of a side module leaves the motif-avoidant attractor alive, so it lies in the intersection of sibling nodes.
+    First the instances that revealed the shape, then module x 1-2 side modules, then seeded combinations of 2-3 side modules."""
+    seen = set()
+
+    def emit(name, b):
+        if b in seen or len(variables(b)) > 8:
+            return []
+        seen.add(b)
+        return [(name, b)]
+
+    for k, b in enumerate(MAA_OVERLAP_FIRST):
+        yield from emit(f"maa_overlap_first{k}", b)
+    sides = list(MAA_OVERLAP_SIDE)
+    combos = [(u, (a,)) for u in UP_MODULES for a in sides] + [(u, (a, b)) for u in UP_MODULES for a in sides for b in sides]
+    rng = random.Random(seed * 73 + 19)
+    rng.shuffle(combos)
+    for u, ss in combos[: 80 if tier == "quick" else len(combos)]:
+        yield from emit(f"maa_overlap_{u}_{'_'.join(ss)}", maa_overlap_net(u, ss))
+    for i in range(80 if tier == "quick" else 800):
+        u = rng.choice(list(UP_MODULES))
+        yield from emit(f"maa_overlap{seed}_{i}", maa_overlap_net(u, [rng.choice(sides) for _ in range(rng.choice([2, 2, 3]))]))
+
+
 def interleave(*gens):
     """Round-robin over generators (each argument is (generator, k): take k items per round) until all are exhausted."""
     its = [(iter(g), k) for g, k in gens]
